@@ -65,7 +65,9 @@ SPEC = {
     "assumptions": [
         "sequentially consistent atomics (sync/atomic); fewer than 2^30-1 goroutines inside Add at once",
         "file.lookup succeeds when a file is mapped (lookup failures are C05's domain)",
-        "the counter is registered before the concurrent phase; critical sections under file.mu are atomic steps",
+        "in the word-protocol model the counter is registered before the concurrent phase (registration racing with the first "
+        "open is covered by Model/Register, C03_register_returned_means_listed_or_claimed, and by the oracle-only multi-counter "
+        "scenarios, which found the defect repaired by fix f518e0b); critical sections under file.mu are atomic steps",
     ],
     "trusted_base": [],
     "own_objects": ["theories/Props/C03.vo", "theories/Proofs/CounterThms.vo", "theories/Proofs/CounterInv.vo", "theories/Proofs/CounterWord.vo", "theories/Proofs/CounterFault.vo", "theories/Proofs/CounterProgress.vo", "theories/Proofs/RegisterFacts.vo", "theories/Proofs/GoFnsCounter.vo"],
